@@ -38,6 +38,15 @@ public:
     Interpreter(CoreTiming& core_timing, RegisterState& regs, MemoryInterface& mem)
         : core_timing(core_timing), regs(regs), mem(mem) {}
 
+    void Reset() {
+        for (auto& pending : interrupt_pending)
+            pending = false;
+        vinterrupt_pending = false;
+        vinterrupt_context_switch = false;
+        vinterrupt_address = 0;
+        idle = false;
+    }
+
     void PushPC() {
         u16 l = (u16)(regs.pc & 0xFFFF);
         u16 h = (u16)(regs.pc >> 16);
